@@ -90,7 +90,7 @@ def _step(draw):
 @st.composite
 def _case(draw, tier):
     big = tier != "quick"
-    mesh = draw(meshgen.any_mesh(max_pts=30 if big else 14, partial=True, tiny=True))
+    mesh = draw(meshgen.any_mesh(max_pts=30 if big else 14, partial=True, tiny=True, polar=True))
     mesh.pop("centers", None)
     steps = draw(st.lists(_step(), min_size=1, max_size=5))
     return {"mesh": mesh, "steps": steps, "radius": draw(sampled_from([None, None, None, 2.5, 6371229.0]))}
